@@ -290,9 +290,12 @@ def run_c17_impl(bats: list[dict], invs: list[dict], edges: list[tuple[int, int]
                          mgr._component_pool_status_tracker.get_working_components(ids))  # pylint: disable=protected-access
         derived = [(list(bs), list(mgr._bat_invs_map[next(iter(bs))])) for bs in sets]  # pylint: disable=protected-access
         seen = [(p.battery.component_id, [i.component_id for i in p.inverter]) for p in pairs]
-        if seen != [(bs[0], is_) for bs, is_ in derived]:
-            raise RuntimeError(f"harness: battery sets re-derived in another order than the manager's: {seen} vs {derived}")
-        out["derived"] = derived
+        # … and the calculator's own (`calculate`): both sides must see the same sets for the model to apply
+        calc_sets = {calc._bat_bats_map[b] for b in working}  # pylint: disable=protected-access
+        calc_derived = {(frozenset(bs), frozenset(calc._bat_inv_map[next(iter(bs))])) for bs in calc_sets}  # pylint: disable=protected-access
+        same = (seen == [(bs[0], is_) for bs, is_ in derived]
+                and calc_derived == {(frozenset(bs), frozenset(is_)) for bs, is_ in derived})
+        out["derived"] = derived if same else None
     if pairs:
         b = mgr._get_bounds(pairs)  # pylint: disable=protected-access
         out["enf"] = bounds_json(b.inclusion_lower, b.exclusion_lower, b.exclusion_upper, b.inclusion_upper)
@@ -631,3 +634,110 @@ def gen_c18_script(rng: random.Random) -> dict:
             ops.append({"op": "calc"})
     ops.append({"op": "calc"})
     return {"batteries": ids, "working": working, "ops": ops}
+
+
+# ---- full stack: the real `SendOnUpdate` with its own tasks, fed through the mocked microgrid API channels
+def run_c18_fullstack(snap: dict, new_working: list[int]) -> list[dict]:
+    """Two real `SendOnUpdate` objects (SoC, capacity) with their `_update_and_notify` / `_send_on_update` tasks on
+    the virtual-time loop; every battery of `snap` with a message sends it once through the (mock) API channel; the
+    streamed results are read, then the working set is updated and they are read again.
+    Returns the two readings in the format of `run_c18_impl`'s calc outputs."""
+    from frequenz.client.microgrid import Component, ComponentCategory, Connection, InverterType
+    from frequenz.sdk.timeseries.battery_pool._methods import SendOnUpdate
+    from frequenz.sdk.timeseries.battery_pool._metric_calculator import CapacityCalculator, SoCCalculator
+    from tests.utils.mock_microgrid_client import MockMicrogridClient
+
+    ids = [d["id"] for d in snap["bats"]]
+    comps = {Component(1, ComponentCategory.GRID), Component(2, ComponentCategory.METER)}
+    conns = {Connection(1, 2)}
+    for b in ids:
+        comps.add(Component(1000 + b, ComponentCategory.INVERTER, InverterType.BATTERY))
+        comps.add(Component(b, ComponentCategory.BATTERY))
+        conns.add(Connection(2, 1000 + b))
+        conns.add(Connection(1000 + b, b))
+    mg = MockMicrogridClient(comps, conns)
+
+    async def read(sou: Any, unit: str) -> Any:
+        rx = sou.new_receiver()  # `resend_latest`: a new receiver starts with the latest streamed result
+        try:
+            sample = await asyncio.wait_for(rx.receive(), 0.01)
+        except asyncio.TimeoutError:
+            return "nothing-streamed"
+        return sample_json(sample, unit)
+
+    async def scenario() -> list[dict]:
+        pools = [SendOnUpdate(set(snap["working"]), SoCCalculator(frozenset(ids)), timedelta(seconds=0.1)),
+                 SendOnUpdate(set(snap["working"]), CapacityCalculator(frozenset(ids)), timedelta(seconds=0.1))]
+        try:
+            await asyncio.sleep(1.0)
+            for d in snap["bats"]:
+                if d["has"]:
+                    await mg.send(soc_msg({"id": d["id"], "ts": d["ts"], **{k: d[k] for k in ("capacity", "lo", "hi", "soc")}}))
+            await asyncio.sleep(1.5)  # t = 2.5 s: after WAIT_FOR_COMPONENT_DATA_SEC, before the fetchers' 2 s time-out
+            first = {"soc": await read(pools[0], "pct"), "cap": await read(pools[1], "wh")}
+            for sou in pools:
+                sou.update_working_batteries(set(new_working))
+            await asyncio.sleep(0.3)
+            second = {"soc": await read(pools[0], "pct"), "cap": await read(pools[1], "wh")}
+            return [first, second]
+        finally:
+            for sou in pools:
+                await sou.stop()
+
+    with mock.patch("frequenz.sdk.microgrid.connection_manager._CONNECTION_MANAGER", mg.mock_microgrid):
+        return loop().run_until_complete(scenario())
+
+
+def fullstack_script(snap: dict, new_working: list[int]) -> dict:
+    """The same scenario as an operation script for the synchronous runner and the Lean driver."""
+    s = static_script(snap)
+    s["ops"] += [{"op": "working", "ids": list(new_working)}, {"op": "calc"}]
+    return s
+
+
+def run_c17_fullstack_adv(groups: list[dict]) -> Any:
+    """The bounds actually STREAMED by a real `SendOnUpdate(PowerBoundsCalculator)` (its own asyncio tasks, virtual
+    clock, mocked API channels) after every component that has a message sent it once."""
+    from frequenz.client.microgrid import Component, ComponentCategory, Connection, InverterType
+    from frequenz.sdk.timeseries.battery_pool._methods import SendOnUpdate
+    from frequenz.sdk.timeseries.battery_pool._metric_calculator import PowerBoundsCalculator
+    from tests.utils.mock_microgrid_client import MockMicrogridClient
+
+    bats, invs = flat(groups)
+    comps = {Component(1, ComponentCategory.GRID), Component(2, ComponentCategory.METER)}
+    conns = {Connection(1, 2)}
+    for i in invs:
+        comps.add(Component(i["id"], ComponentCategory.INVERTER, InverterType.BATTERY))
+        conns.add(Connection(2, i["id"]))
+    for b in bats:
+        comps.add(Component(b["id"], ComponentCategory.BATTERY))
+    for i, b in group_edges(groups):
+        conns.add(Connection(i, b))
+    mg = MockMicrogridClient(comps, conns)
+    working = {b["id"] for b in bats if b["working"]}
+
+    async def scenario() -> Any:
+        sou = SendOnUpdate(working, PowerBoundsCalculator(frozenset(b["id"] for b in bats)), timedelta(seconds=0.1))
+        try:
+            await asyncio.sleep(1.0)
+            for c in bats:
+                if c["has"]:
+                    await mg.send(battery_msg(c))
+            for c in invs:
+                if c["has"]:
+                    await mg.send(inverter_msg(c))
+            await asyncio.sleep(1.5)
+            rx = sou.new_receiver()
+            try:
+                sb = await asyncio.wait_for(rx.receive(), 0.01)
+            except asyncio.TimeoutError:
+                return "nothing-streamed"
+            if sb.inclusion_bounds is None or sb.exclusion_bounds is None:
+                return None
+            return bounds_json(sb.inclusion_bounds.lower.as_watts(), sb.exclusion_bounds.lower.as_watts(),
+                               sb.exclusion_bounds.upper.as_watts(), sb.inclusion_bounds.upper.as_watts())
+        finally:
+            await sou.stop()
+
+    with mock.patch("frequenz.sdk.microgrid.connection_manager._CONNECTION_MANAGER", mg.mock_microgrid):
+        return loop().run_until_complete(scenario())
